@@ -27,8 +27,13 @@ def closure_cmp(ctx, path):
     ev, res = ctx.eval(b)
     v = res.ret
     if tag(v) == "cmp":
-        names = {("param", 1, "val"): "val", ("param", 2, "next_node_size"): "next"}
-        return (v[1], names.get(v[2], show(v[2])), names.get(v[3], show(v[3])))
+        # the two arguments by position: (value searched for, size of the next node); a closure's own first parameter is the closure
+        first = 1 if b.kind == "Closure" else 0
+        def nm(t):
+            if tag(t) == "param" and t[1] in (first, first + 1):
+                return "val" if t[1] == first else "next"
+            return show(t)
+        return (v[1], nm(v[2]), nm(v[3]))
     return None
 
 
@@ -46,8 +51,8 @@ def f1(ctx):
             for _ in range(3):
                 if tag(carg) == "ref":
                     carg = ev._deref_val(carg)
-            ok = len(searches) == 1 and tag(carg) == "closure"
-            got = closure_cmp(ctx, carg[1]) if ok else None
+            ok = len(searches) == 1 and tag(carg) in ("closure", "fn")
+            got = closure_cmp(ctx, carg[1].split("::<")[0] if tag(carg) == "fn" else carg[1]) if ok else None
             # the value searched for: the new segment's data size (insertion) / the requested size (pop)
             yield Ob(key_of("C10-F1", b.path, "comparator"), got == cmpw, "%s searches with %s (want %s)" % (name, got, cmpw), ctx.loc(searches[0]) if searches else b.loc())
             if ok and name.endswith("dealloc"):
